@@ -9,7 +9,7 @@
     by the emitter theorem.  [delivered_events boot es ls] = the events for which the main-process hooks are called.
     Tie to /repo: harness/props/c11_system.py (the registrars inside a real Nextline, the relay held in a slow hook while
     the run ends) + the ties of the three component models. *)
-From NL Require Import Events.Grammar Events.Emitter Registrars.Model Registrars.Proofs System.Pipeline.
+From NL Require Import Events.Grammar Events.Emitter Registrars.Model Registrars.Proofs System.Pipeline System.PipelineCode.
 From Coq Require Import Lia.
 Open Scope Z_scope.
 
@@ -91,6 +91,39 @@ Theorem C11_system_subscribers_terminate : forall r ps sched boot ls,
       last tail PS.OBlocked = PS.OStop /\ ~ In PS.OBlocked tail.
 Proof. exact e2e_subscribers_terminate. Qed.
 
+(** ---- the same, on the REGENERATED CODE of the three components that have a regenerated-source tie (System/PipelineCode.v):
+    the subprocess' emitter code, the relay code and the registrars' code, interpreted; [code_delivered] = the events for
+    which the relay code calls the hooks when the emitter code runs [ps] under [sched] *)
+Theorem C11_system_code_delivered_is_prefix : forall r ps sched boot ls,
+  exists k, code_delivered r ps sched boot ls = firstn k (EI.iemitted r ps sched).
+Proof. exact code_delivered_is_prefix. Qed.
+
+Theorem C11_system_code_delivered_wf_prefix : forall r ps sched boot ls,
+  wf_prefix r (code_delivered r ps sched boot ls) = true.
+Proof. exact code_delivered_wf_prefix. Qed.
+
+(** the registrars' code, fed what the relay code delivers, never raises, is never cut short, and publishes exactly [pubs_run] *)
+Theorem C11_system_code_whole_run : forall r ps sched boot ls,
+  let del := code_delivered r ps sched boot ls in
+  GT.run_whole_stop r del =
+  Some (GT.loadR r (fst (on_end_run r (state_events r del))),
+        GT.GPub (NL.Registrars.Syntax.VStr k_run_no) (NL.Registrars.Syntax.VInt r) :: map GT.enc_pub (pubs_run r del), false).
+Proof. exact code_whole_run. Qed.
+
+Theorem C11_system_code_topics : forall r ps sched boot ls,
+  let del := code_delivered r ps sched boot ls in
+  exists G pubs, GT.run_whole r del = Some (G, pubs) /\
+    forall k, GT.g_on_topic k pubs = map (option_map GT.enc_value) (on_topic k (pubs_run r del)).
+Proof. exact code_topics. Qed.
+
+Theorem C11_system_code_closed_out : forall r ps sched boot ls,
+  let del := code_delivered r ps sched boot ls in
+  last_nos (pubs_run r del) = [] /\
+  (forall t, In t (trace_starts del) ->
+     exists vs, on_topic (TPromptInfoFor t) (pubs_run r del) = map Some vs ++ [None]) /\
+  (exists vs, on_topic TPromptNotice (pubs_run r del) = map Some vs ++ [None]).
+Proof. exact code_closed_out. Qed.
+
 (** non-vacuity: two actors (a trace with a prompt, a trace without), interleaved; the relay is killed after three events
     were put of which two got through: the delivered stream is the 2-event prefix, still a well-formed prefix, and the
     close-out leaves no active trace *)
@@ -123,3 +156,8 @@ Print Assumptions C11_system_trace_info_once.
 Print Assumptions C11_system_notice_bijection.
 Print Assumptions C11_system_closed_out_prompt_topics.
 Print Assumptions C11_system_subscribers_terminate.
+Print Assumptions C11_system_code_delivered_is_prefix.
+Print Assumptions C11_system_code_delivered_wf_prefix.
+Print Assumptions C11_system_code_whole_run.
+Print Assumptions C11_system_code_topics.
+Print Assumptions C11_system_code_closed_out.
